@@ -75,6 +75,13 @@ func IsSafeCmd(name string) bool {
 	return safeSet[name]
 }
 
+// ResetSafeSet makes IsSafeCmd read parser.GetSafeCmds() again (used by the
+// safe-list editing check, which changes the list the way `config set shell
+// safe-commands` does).
+func ResetSafeSet() {
+	safeOnce = sync.Once{}
+}
+
 // Verdict is the tokenizer's view of a line.
 type Verdict struct {
 	Panic    any
